@@ -40,6 +40,8 @@ def invalid_variants(rng, kind):
             ('P', 'caf\xe9', 'ascii', 'default', None, None),
             ('P', 'text', 'utf-8\xe9', 'default', None, None),
             ('P', '\ud800', None, 2, None, None),
+            ('P', 'text', None, -2, None, None),
+            ('P', 'text', None, -1, 'dos', 'text/plain'),
         ])
     if kind == 'M':
         return rng.choice([
